@@ -63,5 +63,10 @@ Definition known_C06_ref_added_later_self (c : m1_case) : bool :=
       | _ => false
       end) (t_constraints (normalized_or_self mt))) (k_models c).
 
+(* C14 / D10: the planned actions carry an inline foreign_key inside a CreateTable / AddColumn column;
+   MigrationAction::with_prefix does not rewrite it *)
+Definition known_C14_inline_fk (c : m1_case) : bool :=
+  negb (forallb no_inline_fk (p_actions (new_plan_of c))).
+
 Definition model_closes_gap (c : m1_case) : bool := closes_gap (baseline_of c) (k_models c).
 Definition model_stepwise_ok (c : m1_case) : bool := plan_stepwise_ok (baseline_of c) (k_models c).
